@@ -228,3 +228,63 @@ HARNESSES = [
       bounds=lambda tier: {"program": "C01 scenario program without the cancel-by-handler kind"},
       outside=["resetting models with sources/probes (re-primed by Source.start, covered only by C08 scenarios)", "stateful entities (excluded by the statement)"]),
 ]
+
+
+# ------------------------------------------------------------------ stepping a queueing pipeline
+from happysimulator.components.server.server import Server
+from happysimulator.core.simulation import Simulation
+from happysimulator.distributions.constant import ConstantLatency
+
+from harness.c08 import Forwarder, Sink
+from harness.common import mk_event
+
+
+def _pipeline(P, interrupt):
+    done = []
+    sink = Sink("sink", done)
+    back = Server("back", concurrency=1, service_time=ConstantLatency(3e-9), queue_capacity=4, downstream=sink)
+    front = Server("front", concurrency=2, service_time=ConstantLatency(1e-9), queue_capacity=4, downstream=back)
+    fwd = Forwarder("fwd", front)
+    sim = Simulation(entities=[front, back, fwd, sink])
+    c = sim.control
+    sim.schedule([mk_event(P["ts"][i], f"req{i}", fwd if P["via"][i] else front) for i in range(len(P["ts"]))])
+    if interrupt is not None:
+        c.pause()
+        sim.run()
+        for k in interrupt:
+            if not c.is_paused:
+                break
+            c.step(k)
+        if c.is_paused:
+            c.resume()
+    else:
+        sim.run()
+    return done, back.stats.requests_rejected, back.stats_dropped, front.stats_dropped, sim._events_processed
+
+
+def pipeline_stepping(sym, tier):
+    """A two-stage Server pipeline (events waiting in queue buffers, outside the heap) driven by
+    pause / step(k1) / step(k2) / resume ends exactly like the uninterrupted run."""
+    r = Result()
+    m = 3 if tier == "quick" else 4
+    P = {"ts": [sym.int(f"arrive{i}", 0, 1) for i in range(m)], "via": [sym.bool(f"via_forwarder{i}") for i in range(m)]}
+    ref = _pipeline(P, None)
+    ks = [sym.int("k1", 1, 30)] + ([sym.int("k2", 1, 30)] if tier != "quick" else [])
+    got = _pipeline(P, ks)
+    if got != ref:
+        r.bad("stepped_pipeline_equals_uninterrupted_run", {"uninterrupted": ref, "stepped": got, "steps": ks})
+    if len(ref[0]) >= 2:
+        r.wit.add("two_completions")
+    if sum(ks) < ref[4]:
+        r.wit.add("paused_midway")
+    r.obs = {"done": ref[0], "events": ref[4]}
+    return r
+
+
+HARNESSES.append(
+    H(name="c04_pipeline_stepping", fn=pipeline_stepping, shape="N", budget=lambda tier: 900.0 if tier == "quick" else 3000.0,
+      cubes=lambda tier: [{"via_forwarder0": a, "via_forwarder1": b} for a in range(2) for b in range(2)],
+      require=lambda tier: ["two_completions", "paused_midway"],
+      functions=["Simulation.run (re-entrant)", "SimulationControl.step/resume", "Queue._handle_enqueue/_handle_poll", "QueueDriver._handle_work_payload"],
+      bounds=lambda tier: {"pipeline": "forwarder -> Server(concurrency 2, 1 ns) -> Server(concurrency 1, 3 ns) -> sink", "requests": 3 if tier == "quick" else 4,
+                           "arrivals": "symbolic ns [0,1]", "interruptions": "step(k1)[, step(k2)], resume with symbolic k in [1,30]"}))
